@@ -108,6 +108,16 @@ func c12Ops() []c12op {
 			pr, err := ipa.CreateIPAProof(common.NewTranscript("ipa"), c, p.cm, p.a, p.z)
 			return fmt.Sprintf("%x %v", ipaProofBytes(&pr), err)
 		}},
+		{"CreateIPAProof + CheckIPAProof at an in-domain point", true, func(c *ipa.IPAConfig, seed int64, slot int) string {
+			p := c12Fixture(c, seed)
+			z := frFromBig(bi(int64(7 + 100*slot)))
+			pr, err := ipa.CreateIPAProof(common.NewTranscript("ipa"), c, p.cm, p.a, z)
+			if err != nil {
+				return "error " + err.Error()
+			}
+			ok, verr := ipa.CheckIPAProof(common.NewTranscript("ipa"), c, p.cm, pr, z, p.a[7+100*slot])
+			return fmt.Sprintf("%x %v %v", sha256.Sum256(ipaProofBytes(&pr)), ok, verr)
+		}},
 		{"CreateMultiProof(n=2) + CheckMultiProof", true, func(c *ipa.IPAConfig, seed int64, slot int) string {
 			polys := polyAlphabet(seed)
 			s := stmt{label: "vt", zs: []int{3 + slot, 200}, polys: []namedPoly{polys[10], polys[12]}}
